@@ -188,6 +188,163 @@ func init() {
 			r.Floor(12, "destination fields compared")
 		}})
 
+	register(&Obligation{ID: "C16.g", Props: []string{"C16", "C01"}, Template: "value-identity",
+		Desc: "the splitter's resume point round-trips unchanged: Checkpoint() records SplitTracker.LastAssigned() itself (not a value derived from the assigned list) next to AssignedSplits(); Start() hands exactly splitterState.LastAssignedShardId and the restored shards to LoadSplits, which stores it; shard discovery always resumes after splitTracker.LastAssigned(); TrackAssigned advances it to the last shard of the batch just assigned",
+		Run: func(r *Run) {
+			ck := r.P.Func("connectors/kinesis", "(*SourceSplitter).Checkpoint")
+			info := ck.Pkg.TypesInfo
+			tracker := r.P.Field("connectors/kinesis", "SourceSplitter", "splitTracker")
+			lastAssigned := r.P.FuncObj("connectors/kinesis", "(*SplitTracker).LastAssigned")
+			assignedSplits := r.P.FuncObj("connectors/kinesis", "(*SplitTracker).AssignedSplits")
+			toProto := r.P.FuncObj("connectors/kinesis", "SourceSplitterShard.toProto")
+			stateT := r.P.TypeName("connectors/kinesis/kinesispb", "SplitterState")
+			onTracker := func(in *types.Info, e ast.Expr, fn *types.Func) bool {
+				call, ok := ast.Unparen(e).(*ast.CallExpr)
+				if !ok || r.P.CalleeFunc(in, call) != fn {
+					return false
+				}
+				sel, ok := ast.Unparen(call.Fun).(*ast.SelectorExpr)
+				return ok && prog.SelField(in, sel.X) == tracker
+			}
+			found := false
+			ast.Inspect(ck.Decl.Body, func(nd ast.Node) bool {
+				cl, ok := nd.(*ast.CompositeLit)
+				if !ok || info.TypeOf(cl) != stateT.Type() {
+					return true
+				}
+				found = true
+				for _, el := range cl.Elts {
+					kv, ok := el.(*ast.KeyValueExpr)
+					if !ok {
+						continue
+					}
+					switch kv.Key.(*ast.Ident).Name {
+					case "LastAssignedShardId":
+						r.Site(kv.Pos(), "Checkpoint: LastAssignedShardId <- splitTracker.LastAssigned()")
+						if !onTracker(info, resolveLocal(info, ck.Decl.Body, kv.Value), lastAssigned) {
+							r.Fail(ck.Name()+":last-assigned", kv.Pos(), nil, "the checkpointed resume point is not splitTracker.LastAssigned() itself: if it is lower than the last shard ever assigned, finished shards are listed and handed out again after a restore; if higher, shards are skipped")
+						}
+					case "AssignedShards":
+						r.Site(kv.Pos(), "Checkpoint: AssignedShards <- AssignedSplits() converted index by index")
+						dst := prog.IdentObj(info, kv.Value)
+						okFill := false
+						ast.Inspect(ck.Decl.Body, func(m ast.Node) bool {
+							rs, ok := m.(*ast.RangeStmt)
+							if !ok || !onTracker(info, resolveLocal(info, ck.Decl.Body, rs.X), assignedSplits) {
+								return true
+							}
+							i, v := prog.IdentObj(info, rs.Key), prog.IdentObj(info, rs.Value)
+							for _, st := range rs.Body.List {
+								as, ok := st.(*ast.AssignStmt)
+								if !ok || len(as.Lhs) != 1 || len(as.Rhs) != 1 {
+									continue
+								}
+								ix, ok := ast.Unparen(as.Lhs[0]).(*ast.IndexExpr)
+								call, ok2 := ast.Unparen(as.Rhs[0]).(*ast.CallExpr)
+								if ok && ok2 && dst != nil && prog.IdentObj(info, ix.X) == dst && i != nil && prog.IdentObj(info, ix.Index) == i && r.P.CalleeFunc(info, call) == toProto {
+									if sel, ok := ast.Unparen(call.Fun).(*ast.SelectorExpr); ok && v != nil && prog.IdentObj(info, sel.X) == v {
+										okFill = true
+									}
+								}
+							}
+							return true
+						})
+						if !okFill {
+							r.Fail(ck.Name()+":assigned-shards", kv.Pos(), nil, "the checkpointed shard list is not splitTracker.AssignedSplits() converted element by element")
+						}
+					}
+				}
+				return true
+			})
+			if !found {
+				r.Error("undecided: SourceSplitter.Checkpoint no longer builds a SplitterState literal")
+			}
+			// Start: LoadSplits(restored shards, state.LastAssignedShardId)
+			st := r.P.Func("connectors/kinesis", "(*SourceSplitter).Start")
+			si := st.Pkg.TypesInfo
+			load := r.P.Func("connectors/kinesis", "(*SplitTracker).LoadSplits")
+			lastF := r.P.Field("connectors/kinesis/kinesispb", "SplitterState", "LastAssignedShardId")
+			getLast := r.P.FuncObj("connectors/kinesis/kinesispb", "(*SplitterState).GetLastAssignedShardId")
+			okLoad := false
+			ast.Inspect(st.Decl.Body, func(nd ast.Node) bool {
+				call, ok := nd.(*ast.CallExpr)
+				if !ok || r.P.CalleeFunc(si, call) != load.Obj || len(call.Args) != 2 {
+					return true
+				}
+				r.Site(call.Pos(), "Start: LoadSplits(restored shards, state.LastAssignedShardId)")
+				a := resolveLocal(si, st.Decl.Body, call.Args[1])
+				if prog.SelField(si, a) == lastF {
+					okLoad = true
+				}
+				if c2, ok := ast.Unparen(a).(*ast.CallExpr); ok && r.P.CalleeFunc(si, c2) == getLast {
+					okLoad = true
+				}
+				return true
+			})
+			if !okLoad {
+				r.Fail(st.Name()+":load-last", st.Decl.Pos(), nil, "Start does not hand the checkpointed LastAssignedShardId to SplitTracker.LoadSplits: discovery after a restore would start from the wrong shard")
+			}
+			// LoadSplits stores its second parameter
+			lastID := r.P.Field("connectors/kinesis", "SplitTracker", "LastAssignedSplitID")
+			okStore := false
+			ast.Inspect(load.Decl.Body, func(nd ast.Node) bool {
+				if as, ok := nd.(*ast.AssignStmt); ok && len(as.Lhs) == 1 && len(as.Rhs) == 1 && prog.SelField(load.Pkg.TypesInfo, as.Lhs[0]) == lastID && r.isParam(load, as.Rhs[0], 1) {
+					okStore = true
+				}
+				return true
+			})
+			r.Site(load.Decl.Pos(), "LoadSplits stores the restored resume point")
+			if !okStore {
+				r.Fail(load.Name()+":store-last", load.Decl.Pos(), nil, "LoadSplits does not store the restored last-assigned id")
+			}
+			// discovery resumes after splitTracker.LastAssigned()
+			disc := r.P.FuncObj("connectors/kinesis", "(*SourceSplitter).discoverShards")
+			nDisc := 0
+			for _, u := range r.P.Uses(disc) {
+				path := r.P.PathTo(u.File, u.Ident.Pos(), u.Ident.Pos())
+				for k := len(path) - 1; k >= 0; k-- {
+					call, ok := path[k].(*ast.CallExpr)
+					if !ok {
+						continue
+					}
+					if r.P.CalleeFunc(u.Pkg.TypesInfo, call) != disc || len(call.Args) != 2 {
+						break
+					}
+					nDisc++
+					r.Site(call.Pos(), "discoverShards(ctx, splitTracker.LastAssigned())")
+					if !onTracker(u.Pkg.TypesInfo, call.Args[1], lastAssigned) {
+						r.Fail(u.Scope.Name(r.P)+":discover-from", call.Pos(), nil, "shard discovery does not resume after splitTracker.LastAssigned()")
+					}
+					break
+				}
+			}
+			if nDisc < 2 {
+				r.Error("floor: %d discoverShards call sites (2 confirmed by hand)", nDisc)
+			}
+			// TrackAssigned: LastAssignedSplitID = shards[len(shards)-1].ShardID
+			ta := r.P.Func("connectors/kinesis", "(*SplitTracker).TrackAssigned")
+			ti := ta.Pkg.TypesInfo
+			okAdv := false
+			ast.Inspect(ta.Decl.Body, func(nd ast.Node) bool {
+				as, ok := nd.(*ast.AssignStmt)
+				if !ok || len(as.Lhs) != 1 || len(as.Rhs) != 1 || prog.SelField(ti, as.Lhs[0]) != lastID {
+					return true
+				}
+				r.Site(as.Pos(), "TrackAssigned advances the resume point to the last shard of the batch")
+				if sel, ok := ast.Unparen(as.Rhs[0]).(*ast.SelectorExpr); ok && sel.Sel.Name == "ShardID" {
+					if ix, ok := ast.Unparen(sel.X).(*ast.IndexExpr); ok && r.isParam(ta, ix.X, 0) {
+						if l, ok := linearOf(ti, nil, ix.Index); ok && len(l) == 2 && l[""] == -1 {
+							okAdv = true
+						}
+					}
+				}
+				return true
+			})
+			if !okAdv {
+				r.Fail(ta.Name()+":advance", ta.Decl.Pos(), nil, "TrackAssigned does not set LastAssignedSplitID to shards[len(shards)-1].ShardID")
+			}
+		}})
+
 	register(&Obligation{ID: "C16.e", Props: []string{"C16", "C01"}, Template: "must-precede+value-identity",
 		Desc: "kinesis.(*SourceSplitter).assignShards sends the assignment and then records exactly those shards as assigned; Start hands restored shards to the assignment once (it does not concatenate two overlapping sources); every assigned split carries its restored cursor",
 		Run: func(r *Run) {
